@@ -5,6 +5,7 @@ import layout
 import effects
 import common
 import totality as T
+import invariants as _inv
 from q import res, is_param, is_param_path, field_path, strip_casts, show, alts, walk, expand
 from terms import get_resolver
 
@@ -364,8 +365,10 @@ def run(ctx):
             # a missing colour ends in Err on every iteration: `.ok_or_else(..)?`, `match .. { None => return Err(..) }`, `if x.is_none() ..`
             req = T.option_required(vb, lambda a0, c=c: any(x[0] == 'call' and x[3] == (vb.name, c.bb) for x in alts(a0)))
             prop = bool(req) and L is not None and all(any(vb.cfg.dominates(r_, x) for r_ in req) for x, _ in L['back_edges'])
-            ctx.inst('P5', 'validator', whole and exits_ok and prop, 'validate_indexed_pixels: looks up %s for every element of the pixel '
-                     'slice (%s), no early exit or skipped element (%s), missing colour -> Err (%s)' % (show(at[1])[:60], whole, exits_ok, prop), c.span,
+            reached = L is not None and _inv.scan_bypassed(vb, L['header']) is None     # no Ok return in front of the scan, except for an empty slice
+            ctx.inst('P5', 'validator', whole and exits_ok and prop and reached, 'validate_indexed_pixels: looks up %s for every element of the pixel '
+                     'slice (%s), no early exit or skipped element (%s), missing colour -> Err (%s), no non-error return bypasses the scan (%s)'
+                     % (show(at[1])[:60], whole, exits_ok, prop, reached), c.span,
                      key=vb.name + '|P5|scan')
         t = res(ctx.fx.body('asefile::palette::ColorPalette::color')).ret() if ctx.fx.body('asefile::palette::ColorPalette::color') else None
         if t is not None:
